@@ -81,6 +81,11 @@ func init() {
 		d := args[0]
 		whole := eq(app("bvsrem", d.L[0], e9), bvLit(64, 0))
 		secs := app("bvsdiv", d.L[0], e9)
+		if parts, ok := vc.durParts[d.L[0]]; ok {
+			// a difference of two instants: d = dsec*1e9 + dns with |dsec| < 2^32 (checked at Sub)
+			whole = eq(parts[1], bvLit(64, 0))
+			secs = parts[0]
+		}
 		exact := fmt.Sprintf("((_ to_fp 11 53) RNE %s)", secs)
 		other := vc.freshConst("dsecs", sF64)
 		return Val{T: rt, L: []string{ite(whole, exact, other)}}
